@@ -34,6 +34,8 @@ pub struct H {
     pub evals: u64,
     /// uid of the explicit parent of an `event_in`
     pub par_uid: u64,
+    /// the event carries the value a `VetoVal` layer vetoes
+    pub vetoed: bool,
 }
 pub static HIST: Mutex<Vec<H>> = Mutex::new(Vec::new());
 static TURN: AtomicUsize = AtomicUsize::new(0);
@@ -135,6 +137,14 @@ pub fn exec_step(gi: usize, t: usize, stack: usize, s: &Value, entered: &mut Vec
         "event" => {
             h.uid = uid;
             sites::emit_event(site, uid);
+        }
+        "event_vetoed" => {
+            // an ordinary event unless the stack has a vetoing layer: then `event_enabled` stops it after the
+            // per-layer filters have been asked
+            h.uid = uid + 999;
+            h.vetoed = true;
+            h.op = "event".into();
+            sites::emit_event(site, uid + 999);
         }
         "event_in" => {
             // an event whose parent is named explicitly: a span held in a slot, entered or not
@@ -251,6 +261,11 @@ fn gen_groups(rng: &mut Rng, mode: &str) -> Vec<Value> {
     if next_leaf == 0 {
         groups.push(json!({"k": "leaf", "id": 0}));
     }
+    if groups.len() < 4 && rng.chance(1, 4) {
+        // a plain layer, somewhere in the stack, that vetoes marked events through `event_enabled`
+        let at = rng.below(groups.len() as u64 + 1) as usize;
+        groups.insert(at, json!({"k": "veto"}));
+    }
     if mode == "probe:F14" {
         groups = vec![
             json!({"k": "and_then", "a": {"k": "filtered", "f": {"k": "level", "thr": rng.range(1, 4)}, "c": {"k": "leaf", "id": 1}}, "b": {"k": "none"}}),
@@ -323,6 +338,8 @@ fn gen_workload(rng: &mut Rng, t: u64, n: u64, probes: bool) -> Vec<Value> {
             _ => {
                 if rng.chance(1, 5) {
                     json!({"t": t, "op": "event_in", "slot": slot, "site": site})
+                } else if rng.chance(1, 6) {
+                    json!({"t": t, "op": "event_vetoed", "site": site})
                 } else {
                     json!({"t": t, "op": "event", "site": site})
                 }
@@ -555,6 +572,7 @@ pub fn oracle(hist: &[H], log: &[LRec], models: &[StackModel], stacks: &[Vec<Val
             match h.op.as_str() {
                 "event" | "span" => {
                     let (_global, recv) = decide(h.site, &spans);
+                    let recv = if h.vetoed && model.has_veto { vec![] } else { recv };
                     if !recv.is_empty() && recv.len() < model.leaves.len() {
                         some_leaf_differs = true;
                     }
